@@ -16,7 +16,10 @@ from zope.interface import (Interface, classImplements, classImplementsOnly,
 from zope.interface.interface import InterfaceClass
 from zope.interface.adapter import AdapterRegistry, VerifyingAdapterRegistry
 
+from zope.interface import declarations as _decl, implementer
 from .common import wmod, newworld
+
+BUILTIN = complex       # declarations for it live in BuiltinImplementationSpecifications
 
 
 def mk(n, *b):
@@ -27,6 +30,10 @@ SHAPES = {
     'chain': [('A', ()), ('B', ('A',)), ('C', ('B',))],
     'diamond': [('A', ()), ('B', ('A',)), ('C', ('A',)), ('D', ('B', 'C'))],
     'mixin': [('A', ()), ('M', ()), ('B', ('A', 'M')), ('C', ('B',))],
+    # two leaf classes (B and D) reach super(B, .) with different MRO tails
+    'shared-next': [('A', ()), ('X', ()), ('B', ('A',)), ('D', ('B', 'X'))],
+    # a builtin type (cannot take attributes) in the tail of the MRO
+    'builtin-tail': [('A', ()), ('N', 'builtin'), ('B', ('A', 'N')), ('C', ('B',))],
     'diamond-mixin': [('A', ()), ('M', ()), ('B', ('A',)), ('C', ('A', 'M')), ('D', ('B', 'C'))],
 }
 IF = ['I0', 'I1', 'I2']
@@ -47,7 +54,13 @@ def build(shape):
     W['I2'] = mk('I2')
     W['P'] = mk('P')
     for n, bs in SHAPES[shape]:
-        W[n] = type(n, tuple(W[b] for b in bs) or (object,), {})
+        if bs == 'builtin':
+            W[n] = BUILTIN
+            _decl.BuiltinImplementationSpecifications.pop(BUILTIN, None)
+            continue
+        # instances are callable, so that a factory-style declaration can be
+        # made on the instance itself (implementer(I)(ob))
+        W[n] = type(n, tuple(W[b] for b in bs) or (object,), {'__call__': lambda self: None})
     return W
 
 
@@ -62,7 +75,7 @@ def ops(shape):
 
 class Model:
     def __init__(s, shape):
-        s.shape = dict(SHAPES[shape])
+        s.shape = {n: (() if bs == 'builtin' else bs) for n, bs in SHAPES[shape]}
         s.decl = {n: [] for n in s.shape}
         s.inherit = {n: True for n in s.shape}
 
@@ -95,7 +108,9 @@ def check(W, M, shape, flavour):
     for leaf in leafs:
         ob = W[leaf]()
         directlyProvides(ob, W['I2'])    # direct interfaces must never show through super
-        mro = [c.__name__ for c in W[leaf].__mro__ if c is not object]
+        implementer(W['I2'])(ob)         # nor a declaration made on the instance as a factory
+        names = {W[n]: n for n, _ in SHAPES[shape]}
+        mro = [names[c] for c in W[leaf].__mro__ if c is not object]
         for idx, cname in enumerate(mro):
             s = super(W[cname], ob)
             rest = mro[idx + 1:]
@@ -141,6 +156,13 @@ def check(W, M, shape, flavour):
 
 
 def eval_case(case):
+    try:
+        return _eval_case(case)
+    finally:
+        _decl.BuiltinImplementationSpecifications.pop(BUILTIN, None)
+
+
+def _eval_case(case):
     shape, flavour, pre, post = case
     W = build(shape)
     M = Model(shape)
@@ -193,7 +215,7 @@ def run(ctx):
     total = 0
     for impl in ('c', 'py'):
         for shape in SHAPES:
-            if quick and shape == 'diamond-mixin':
+            if quick and shape in ('diamond-mixin', 'mixin'):
                 continue
             O = ops(shape)
             pres = list(itertools.product(O, repeat=depth))
